@@ -168,7 +168,7 @@ class Edit:
         self.s, self.e, self.new, self.rule, self.note, self.seq = s, e, new, rule, note, seq
 
 
-def inv_text(invariants, decreases=None):
+def inv_text(invariants, decreases=None, ensures=None):
     """invariants: list of "text" or ("LABELS", "text"); labels become `// [LABELS]` markers the engine reads back."""
     txt = "\n    invariant\n"
     for x in invariants:
@@ -176,6 +176,8 @@ def inv_text(invariants, decreases=None):
             txt += "        %s, // [%s]\n" % (x[1], x[0])
         else:
             txt += "        %s,\n" % x
+    if ensures:
+        txt += "    ensures\n" + "".join("        %s,\n" % x for x in ensures)
     if decreases:
         txt += "    decreases %s\n" % decreases
     return txt
